@@ -5,7 +5,7 @@ HERE = os.path.dirname(os.path.dirname(os.path.abspath(__file__)))
 
 CLAIMED = {
     "C01": dict(cat="exploration", ref="DESIGN.md 4 (C01)",
-        text="Seeded search over connections (intent, secret, claimed identity, authentication verdict incl. errors and latency, 8 Encryption Response variants, valid and subtly invalid cookies) through the real Connection; history oracle: grant packets require an honest token and a voucher, the service is asked with the connection's secret / key / claim, every later use of the identity (Login Success, filter, strategy, issued cookie) is the vouched one. Later rounds added: zero-time transport faults (frames coalesced into one read, cuts down to one byte, spurious Pending, short write acceptance), the token of a real previous connection, degenerate verdicts (empty name, nil UUID), long names, 5-8 KB profiles, and the rule that every service call carries the connection's own client address. Fourth round: two-connection histories in which an earlier connection of the same process is accepted with a genuine cookie and the next one presents that cookie's tag in front of a body naming somebody else (primes whatever the code keeps between connections). One evaluation in ten runs the listener mode: 2-14 players log in through one real Listener at nearly the same time, each with a claim, an address and (for some) a genuine cookie of its own; every Login Success must carry the identity vouched for on that very connection (props/swarm.rs).",
+        text="Seeded search over connections (intent, secret, claimed identity, authentication verdict incl. errors and latency, 8 Encryption Response variants, valid and subtly invalid cookies) through the real Connection; history oracle: grant packets require an honest token and a voucher, the service is asked with the connection's secret / key / claim, every later use of the identity (Login Success, filter, strategy, issued cookie) is the vouched one. Later rounds added: zero-time transport faults (frames coalesced into one read, cuts down to one byte, spurious Pending, short write acceptance), the token of a real previous connection, degenerate verdicts (empty name, nil UUID), long names, 5-8 KB profiles, and the rule that every service call carries the connection's own client address. Fourth round: two-connection histories in which an earlier connection of the same process is accepted with a genuine cookie and the next one presents that cookie's tag in front of a body naming somebody else (primes whatever the code keeps between connections). One evaluation in ten runs the listener mode: 2-14 players log in through one real Listener at nearly the same time, each with a claim, an address and (for some) a genuine cookie of its own; every Login Success must carry the identity vouched for on that very connection (props/swarm.rs). Later waves: the same claim twice from one address with a failing service the second time, any Client Information field values.",
         note="Scripted authentication service stands in for the session server; independent client codec/RSA/CFB8 trusted (interoperates with the real server on every honest run).",
         tech="deterministic simulation; history invariants over the recorded event log"),
     "C02": dict(cat="fault_enumeration", ref="DESIGN.md 4 (C02)",
@@ -13,7 +13,7 @@ CLAIMED = {
         note="Trusts the oracle's HMAC/JSON check and the simulated wall clock being the only clock read (hook H2).",
         tech="deterministic simulation; enumerated cookie faults; independent acceptance predicate"),
     "C03": dict(cat="exploration", ref="DESIGN.md 4 (C03)",
-        text="Seeded routing scenarios (target lists with duplicates and IPv6, every filter/strategy outcome incl. errors, latencies up to 40 s, client locales against random tables through the real FixedLocalizationAdapter); oracle: pipeline wiring equalities from the call log, exactly one final Transfer naming the chosen address or one localized Disconnect, nothing after it. Later rounds added: IPv4-mapped / IPv4-compatible / loopback / unspecified / port-boundary target addresses, non-ASCII messages, locales beyond 16 bytes, zero-time transport faults incl. padded frame length prefixes. Fourth round: messages of 16-33 KB (three-byte frame length prefix), a Keep Alive held back by the transport across the completion of a back-end call. One evaluation in eight runs the listener mode (several players through one real Listener, a discovery answer per call, the strategy picks by player): each connection's filters, strategy, Transfer and issued cookie must be fed from its own calls. Also: clients that take seconds to hang up after the final packet, back-ends whose first call fails although a second would succeed, an earlier connection of the thread that ended with a broken transport.",
+        text="Seeded routing scenarios (target lists with duplicates and IPv6, every filter/strategy outcome incl. errors, latencies up to 40 s, client locales against random tables through the real FixedLocalizationAdapter); oracle: pipeline wiring equalities from the call log, exactly one final Transfer naming the chosen address or one localized Disconnect, nothing after it. Later rounds added: IPv4-mapped / IPv4-compatible / loopback / unspecified / port-boundary target addresses, non-ASCII messages, locales beyond 16 bytes, zero-time transport faults incl. padded frame length prefixes. Fourth round: messages of 16-33 KB (three-byte frame length prefix), a Keep Alive held back by the transport across the completion of a back-end call. One evaluation in eight runs the listener mode (several players through one real Listener, a discovery answer per call, the strategy picks by player): each connection's filters, strategy, Transfer and issued cookie must be fed from its own calls. Also: clients that take seconds to hang up after the final packet, back-ends whose first call fails although a second would succeed, an earlier connection of the thread that ended with a broken transport. Later waves: an application mode (passage::start with the localization tables in its configuration and nothing to route to), thousands of distinct client locales, names that merely begin like a table, ports at VarInt boundaries.",
         note="Locale tables lacking the applicable key are don't-care; text components compared as values.",
         tech="deterministic simulation; wiring equalities + independent locale fallback"),
     "C06": dict(cat="exploration", ref="DESIGN.md 4 (C06)",
@@ -29,42 +29,42 @@ CLAIMED = {
         note="A variant is judged only if every keep-alive echo was still available in time (measured from the pipe, not assumed); masked: verify token, session/trace id, cookie second, keep-alives.",
         tech="deterministic simulation; differential trace equality under enumerated segmentation and write-acceptance faults"),
     "C10": dict(cat="exploration", ref="DESIGN.md 4 (C10)",
-        text="Two-connection histories (authenticate + route, then present what was stored after a wall-clock gap around the expiry boundary or a backwards step) with secrets of any length, expiry up to 2^64-1, IPv4/IPv6, port changes, session cookie presented or not; oracle: independent HMAC over the issued cookie, body completeness against connection facts and the simulated clock, acceptance and same identity on the second connection, session-cookie rules. Later rounds added: secrets around one HMAC block (63/64/65/128 bytes), Forge-style hosts with NUL, a second connection handled under another configured expiry, zero-time transport faults, service calls must carry each connection's own address.",
+        text="Two-connection histories (authenticate + route, then present what was stored after a wall-clock gap around the expiry boundary or a backwards step) with secrets of any length, expiry up to 2^64-1, IPv4/IPv6, port changes, session cookie presented or not; oracle: independent HMAC over the issued cookie, body completeness against connection facts and the simulated clock, acceptance and same identity on the second connection, session-cookie rules. Later rounds added: secrets around one HMAC block (63/64/65/128 bytes), Forge-style hosts with NUL, a second connection handled under another configured expiry, zero-time transport faults, service calls must carry each connection's own address. Later waves: first connections that present a refused cookie (fresh authentication must still issue one), unreadable session cookies (never replaced), a second client answering inside a wall-clock second, cookies sized around 5000 / 5120 bytes, handshake hosts with a forwarded-address trailer.",
         note="Trusts the oracle's HMAC/JSON check; gap beyond expiry is left to C02.",
         tech="deterministic simulation; two-connection history check with simulated wall clock"),
     "C04": dict(cat="fault_enumeration", ref="DESIGN.md 4 (C04)",
-        text="Four honest transcripts with exactly one mutation enumerated by run index over every frame and byte offset (outer length boundary values with the prefix delivered alone, truncation at every offset + EOF/reset, every offset replaced by hostile VarInts / bytes / invalid UTF-8 with the outer length repaired, junk appended, wire bit flips incl. ciphertext, 12 Encryption Response variants), several maximum frame sizes, a third under segmentation. Observed: panic hook, counting allocator (largest single request while the handler is polled), virtual time from EOF delivery to return, reads after EOF. Later rounds added: frames really longer than the maximum delivered whole in one segment at every protocol step, bursts of 200-3000 valid ignorable frames in one segment (buffer growth), odd locales with the no-target Disconnect path, a watchdog that turns a non-yielding loop into a violation with replay. Fourth round: legal ignorable frames of exactly max / max-1 / max-2 / max-3 bytes (whole, in pieces, followed by EOF) must be consumed. Also: unsolicited Keep Alive ids at the edge of the value range, length prefixes that put 2^21 / 2^28 / 2^30 over the frame's real length.",
+        text="Four honest transcripts with exactly one mutation enumerated by run index over every frame and byte offset (outer length boundary values with the prefix delivered alone, truncation at every offset + EOF/reset, every offset replaced by hostile VarInts / bytes / invalid UTF-8 with the outer length repaired, junk appended, wire bit flips incl. ciphertext, 12 Encryption Response variants), several maximum frame sizes, a third under segmentation. Observed: panic hook, counting allocator (largest single request while the handler is polled), virtual time from EOF delivery to return, reads after EOF. Later rounds added: frames really longer than the maximum delivered whole in one segment at every protocol step, bursts of 200-3000 valid ignorable frames in one segment (buffer growth), odd locales with the no-target Disconnect path, a watchdog that turns a non-yielding loop into a violation with replay. Fourth round: legal ignorable frames of exactly max / max-1 / max-2 / max-3 bytes (whole, in pieces, followed by EOF) must be consumed. Also: unsolicited Keep Alive ids at the edge of the value range, length prefixes that put 2^21 / 2^28 / 2^30 over the frame's real length. Later waves: the scripted services count back-end calls that are being waited for - none may be left after the handler returned; lookups that take a while; locales that split a character at byte 16.",
         note="Samples random bytes for junk/flip positions; allocation bound max(64 KiB, 8 x max frame) is the check's reading of 'out of proportion'.",
         tech="deterministic simulation; enumerated frame mutations with panic/allocation/termination monitors"),
     "C05": dict(cat="fault_enumeration", ref="DESIGN.md 4 (C05)",
-        text="Seeded search over poll-level I/O schedules against the real CipherStream (Pending, prefix acceptance, retry with another buffer, reads down to 1 byte, pre-filled ReadBuf, switch at any operation boundary) plus whole logins through the real Connection under write faults; oracle is an independent CFB8 on the raw AES block function. Samples schedules, does not enumerate them all. Fourth round: bytes read ahead of the switch and decrypted in place (decrypt_buffered) as an operation of the unit layer; clients that pipeline behind their Encryption Response in the login layer. Also: gathered writes (poll_write_vectored over two or three slices against a transport that accepts them).",
+        text="Seeded search over poll-level I/O schedules against the real CipherStream (Pending, prefix acceptance, retry with another buffer, reads down to 1 byte, pre-filled ReadBuf, switch at any operation boundary) plus whole logins through the real Connection under write faults; oracle is an independent CFB8 on the raw AES block function. Samples schedules, does not enumerate them all. Fourth round: bytes read ahead of the switch and decrypted in place (decrypt_buffered) as an operation of the unit layer; clients that pipeline behind their Encryption Response in the login layer. Also: gathered writes (poll_write_vectored over two or three slices against a transport that accepts them). Later waves: a listener mode in which the listener's deadline strikes in the encrypted phase - whatever is put on the socket at the end must still be part of the one encrypted stream.",
         note="Trusts the oracle's 25-line CFB8 and the aes crate's block function; transport is the scripted stub.",
         tech="deterministic simulation: scripted-transport fault injection, independent CFB8 oracle"),
     "C13": dict(cat="exploration", ref="DESIGN.md 4 (C13)",
-        text="Seeded arrival histories against the real RateLimiter under tokio virtual time; black-box oracle: per-window and sliding bounds, re-admission after 2d idle, metamorphic duplicate-rejected relation, per-key differential run (cleanup neutrality), tracked-keys bound through hook H3. Later rounds added: address scans (fresh keys only), 66-70 thousand fresh keys anywhere in the history, limiter uptimes around 2^31 / 2^32 ms and 400 days; the per-key differential prefers keys that come back.",
+        text="Seeded arrival histories against the real RateLimiter under tokio virtual time; black-box oracle: per-window and sliding bounds, re-admission after 2d idle, metamorphic duplicate-rejected relation, per-key differential run (cleanup neutrality), tracked-keys bound through hook H3. Later rounds added: address scans (fresh keys only), 66-70 thousand fresh keys anywhere in the history, limiter uptimes around 2^31 / 2^32 ms and 400 days; the per-key differential prefers keys that come back. A panicking limiter is reported as a violation.",
         note="Trusts tokio's paused clock and that tracked_keys() equals the published gauge value.",
         tech="deterministic simulation under virtual time; history oracles (bounds, metamorphic, differential)"),
 }
 
 CLAIMED.update({
     "C14": dict(cat="exploration", ref="DESIGN.md 4 (C14)",
-        text="Seeded configurations started through passage::start(config) with built-in adapters, or as a Listener with sim services whose discovery never answers, on the simulated network; clients probe the configured frame limit at max / max+1, cookies at expiry-1 / expiry / expiry+1 under the configured or another secret, and the deadline (silent, trickling one byte every k s, stopping after n frames, echoing keep-alives forever). Oracle: served / refused according to the configured values, server end closed no later than timeout after accept. Later rounds added: PROXY protocol on (admission = header complete, itself bounded by the timeout), trickling headers, a client that stops reading, secrets with surrounding whitespace, timeout 0. Fourth round: an over-long frame after login once the read buffer has grown, cookies answered seconds late (age at the check), and the server must let go of the socket - not only end its own direction - by the deadline. Also: handshake frames that declare their real length plus 2^21 / 2^28 / 2^30, prefix delivered first, must be refused on the declared length.",
+        text="Seeded configurations started through passage::start(config) with built-in adapters, or as a Listener with sim services whose discovery never answers, on the simulated network; clients probe the configured frame limit at max / max+1, cookies at expiry-1 / expiry / expiry+1 under the configured or another secret, and the deadline (silent, trickling one byte every k s, stopping after n frames, echoing keep-alives forever). Oracle: served / refused according to the configured values, server end closed no later than timeout after accept. Later rounds added: PROXY protocol on (admission = header complete, itself bounded by the timeout), trickling headers, a client that stops reading, secrets with surrounding whitespace, timeout 0. Fourth round: an over-long frame after login once the read buffer has grown, cookies answered seconds late (age at the check), and the server must let go of the socket - not only end its own direction - by the deadline. Also: handshake frames that declare their real length plus 2^21 / 2^28 / 2^30, prefix delivered first, must be refused on the declared length. Later waves: secrets through the environment variable / secret file and Config::read(), secrets beyond one HMAC block, client locales, handshake frames of 254 / 382 / 510 bytes, one second of grace for letting go of the socket.",
         note="Built-in Fixed adapters stand in for back-ends in start mode; the interrupt signal is not raised here (C17 does).",
         tech="deterministic simulation on an in-memory network; config-conformance and deadline invariants"),
     "C15": dict(cat="exploration", ref="DESIGN.md 4 (C15)",
-        text="Seeded arrival histories of up to 40 connections through 1-3 load-balancer peers with PROXY v1/v2 headers from an independent writer (valid, LOCAL/UNKNOWN, bad signature, truncated+EOF, absent, disabled version), limiter off or small enough to refuse; oracle: a second real RateLimiter fed with the effective IPs of the valid connections at the same virtual instants decides who must be served; refused and invalid connections receive zero bytes; services and issued cookies see the announced source. Later rounds added: headers that trickle in (admission and limiter feed at header completion, ties give no verdict), header and handshake in one read, datagram-transport v2 headers. Fourth round: part of a header followed by silence until the listener's deadline (2 s or 30 s) consumes no budget. A quarter of the histories run through passage::start (configuration -> limiter / PROXY wiring); IPv4-mapped, IPv4-compatible and loopback sources.",
+        text="Seeded arrival histories of up to 40 connections through 1-3 load-balancer peers with PROXY v1/v2 headers from an independent writer (valid, LOCAL/UNKNOWN, bad signature, truncated+EOF, absent, disabled version), limiter off or small enough to refuse; oracle: a second real RateLimiter fed with the effective IPs of the valid connections at the same virtual instants decides who must be served; refused and invalid connections receive zero bytes; services and issued cookies see the announced source. Later rounds added: headers that trickle in (admission and limiter feed at header completion, ties give no verdict), header and handshake in one read, datagram-transport v2 headers. Fourth round: part of a header followed by silence until the listener's deadline (2 s or 30 s) consumes no budget. A quarter of the histories run through passage::start (configuration -> limiter / PROXY wiring); IPv4-mapped, IPv4-compatible and loopback sources. Later waves: clients that hang up after the handshake frame (charged all the same), limit 0, handshake hosts with a forwarded-address trailer.",
         note="The shadow limiter is the real one so limiter defects are not misattributed (C13 owns them).",
         tech="deterministic simulation on an in-memory network; shadow-limiter history oracle"),
     "C16": dict(cat="exploration", ref="DESIGN.md 4 (C16)",
-        text="1-20 hostile clients (silent before / stalled inside / trickling the PROXY header, stopping mid-protocol, stalled mid-frame, never echoing, never reading) plus one well-behaved victim; every scenario is run with everybody and with the victim alone and the victim's timestamped trace must be identical (compute is free in virtual time, so any difference is waiting caused by another connection). Later rounds added: up to 64 hostile clients, everybody behind one or two load-balancer peers, crowds that misbehave the same way, hostile clients sharing addresses (limiter refusals kept open), listener uptimes of 6 h / 1 d / 49.7 d with an ordinary login at the very start. Fourth round: one run in 160 a crowd of 260-2100 connections held open.",
+        text="1-20 hostile clients (silent before / stalled inside / trickling the PROXY header, stopping mid-protocol, stalled mid-frame, never echoing, never reading) plus one well-behaved victim; every scenario is run with everybody and with the victim alone and the victim's timestamped trace must be identical (compute is free in virtual time, so any difference is waiting caused by another connection). Later rounds added: up to 64 hostile clients, everybody behind one or two load-balancer peers, crowds that misbehave the same way, hostile clients sharing addresses (limiter refusals kept open), listener uptimes of 6 h / 1 d / 49.7 d with an ordinary login at the very start. Fourth round: one run in 160 a crowd of 260-2100 connections held open. Later waves: hostile clients that claim the victim's identity, stall in the middle of a write, speak nonsense, or are turned down by the authentication service (which fails by name, so the victim's own login is unaffected).",
         note="Victim has its own effective IP so the limiter cannot couple it to the others. Needs-two-OS-threads effects (e.g. try_lock contention) are outside a single-threaded simulation.",
         tech="deterministic simulation; non-interference as timed-trace equality with the solo run"),
     "C17": dict(cat="exploration", ref="DESIGN.md 4 (C17)",
-        text="0-10 connections at various stages and a stop request at a random instant, deliberately also at the exact instant of a connect (issued before or after it); each scenario runs with and without the stop. Oracle: nothing served to connections that arrived after the stop, they see EOF by the time listen() returns; connections accepted strictly before the stop end exactly as in the stop-free run; listen() returns Ok, no earlier than the last served connection's end and within the timeout. Later rounds added: PROXY protocol with headers completing seconds after the accept or just inside the deadline, a third of the histories through passage::start stopped by the simulated interrupt (hook H6), a sibling connection task that panics (injected back-end bug) while others drain.",
+        text="0-10 connections at various stages and a stop request at a random instant, deliberately also at the exact instant of a connect (issued before or after it); each scenario runs with and without the stop. Oracle: nothing served to connections that arrived after the stop, they see EOF by the time listen() returns; connections accepted strictly before the stop end exactly as in the stop-free run; listen() returns Ok, no earlier than the last served connection's end and within the timeout. Later rounds added: PROXY protocol with headers completing seconds after the accept or just inside the deadline, a third of the histories through passage::start stopped by the simulated interrupt (hook H6), a sibling connection task that panics (injected back-end bug) while others drain. Later waves: within the stop's instant the stop can be called from a task queued behind the listener (accepted, connection task not yet polled) - 'in progress' is what the listener had accepted when the stop was called; a third of the application runs use the real Agones adapter against the simulated API server; status clients that dawdle before their ping, a slow status service; rare crowds of short connections around one slow login.",
         note="Connects issued at the stop's own instant before it count as queued: fully served or nothing are both accepted. Keep Alive packets are excluded from the comparison (tick ties).",
         tech="deterministic simulation with a stop signal at arbitrary and tied instants; differential drain oracle"),
     "C20": dict(cat="exploration", ref="DESIGN.md 4 (C20)",
-        text="The real AgonesDiscoveryAdapter, kube client stack and kube-runtime watcher/backoff run against an in-process simulated Kubernetes API server under virtual time: seeded histories of create / replace (all Agones states, unconvertible shapes) / delete with BOOKMARKs, dropped watches (EOF, I/O error, mid-line), HTTP 500, compaction and in-stream 410 (re-list), expired continue tokens, pagination, latency, arbitrary chunk boundaries, duplicate delivery, watch timeouts. After every step the run settles (bounded liveness, 180 s virtual) and discover() must equal the set derived from the server's single-copy store. Later rounds added: invariants sampled at every unsettled instant (a server offerable at the last settle point and untouched since stays offered with exactly that data; nothing is offered in a version that never existed), busy histories without settling between steps, aborted re-lists, store changes fused with a stream failure, the application's DynDiscoveryAdapter wrapper.",
+        text="The real AgonesDiscoveryAdapter, kube client stack and kube-runtime watcher/backoff run against an in-process simulated Kubernetes API server under virtual time: seeded histories of create / replace (all Agones states, unconvertible shapes) / delete with BOOKMARKs, dropped watches (EOF, I/O error, mid-line), HTTP 500, compaction and in-stream 410 (re-list), expired continue tokens, pagination, latency, arbitrary chunk boundaries, duplicate delivery, watch timeouts. After every step the run settles (bounded liveness, 180 s virtual) and discover() must equal the set derived from the server's single-copy store. Later rounds added: invariants sampled at every unsettled instant (a server offerable at the last settle point and untouched since stays offered with exactly that data; nothing is offered in a version that never existed), busy histories without settling between steps, aborted re-lists, store changes fused with a stream failure, the application's DynDiscoveryAdapter wrapper. Later waves: outages of seven or eight refused watch requests in a row (the settle bound grows with the longest outage).",
         note="The simulated server is written to the list/watch contract kube-runtime expects.",
         tech="deterministic simulation against a simulated API server; reference-model (single-copy store) comparison at settle points + bounded liveness"),
 })
